@@ -21,7 +21,6 @@ import (
 	"github.com/refraction-networking/uquic/internal/verif/quicworld"
 	"github.com/refraction-networking/uquic/internal/verif/simworld"
 	"github.com/refraction-networking/uquic/internal/verif/wiretap"
-	tls "github.com/refraction-networking/utls"
 )
 
 type c18CliObs struct {
@@ -40,6 +39,7 @@ type c18RespScript func(idx int, str *quic.Stream, req *c18Message, reqErr error
 type c18CliWorld struct {
 	w      *quicworld.World
 	tr     *http3.Transport
+	dialer *c18Dialer
 	ctx    context.Context
 	cancel context.CancelFunc
 
@@ -78,10 +78,8 @@ func c18NewCliWorld(pc *c18PeerCase, o c18CliOpt, script c18RespScript) (*c18Cli
 	}
 	cw := &c18CliWorld{w: w, script: script, ready: make(chan struct{}), trailer: pc.Trailers, onConn: o.OnConn}
 	cw.ctx, cw.cancel = context.WithCancel(context.Background())
-	cw.tr = &http3.Transport{Logger: c18Logger(pc.Logger), MaxResponseHeaderBytes: o.MaxResponseHeaderBytes,
-		Dial: func(ctx context.Context, _ string, _ *tls.Config, _ *quic.Config) (*quic.Conn, error) {
-			return w.Dial(ctx)
-		}}
+	cw.dialer = &c18Dialer{w: w}
+	cw.tr = &http3.Transport{Logger: c18Logger(pc.Logger), MaxResponseHeaderBytes: o.MaxResponseHeaderBytes, Dial: cw.dialer.dial}
 	cw.wg.Add(1)
 	go func() { // the Transport dials again after a failed request: serve every connection
 		defer cw.wg.Done()
@@ -174,6 +172,7 @@ func (cw *c18CliWorld) server() *quic.Conn {
 
 func (cw *c18CliWorld) close() []string {
 	cw.tr.Close()
+	cw.dialer.closeAll()
 	cw.cancel()
 	cw.server()
 	cw.mu.Lock()
